@@ -6,7 +6,7 @@ cd /verif
 ids=${@:-$(ls seeded)}
 for sid in $ids; do
   pid=$(python3 -c "import json;print(json.load(open('seeded/$sid/meta.json'))['property'])")
-  out=$(tools/trymut.sh seeded/$sid/patch.diff $pid 2>&1)
+  out=$(tools/trymut.sh /verif/seeded/$sid/patch.diff $pid 2>&1)
   det=$(echo "$out" | grep -c "^VIOLATION")
   nf=$(echo "$out" | grep "^VIOLATION" | grep -c "no-failing-input-found")
   python3 - "$sid" "$det" "$nf" "$(echo "$out" | grep -E 'tier=|PATCH|BUILD' | head -1)" <<'PY'
